@@ -905,6 +905,7 @@ var (
 	c19From = time.Date(2024, 12, 31, 0, 0, 0, 0, time.UTC)
 	c19To   = time.Date(2025, 1, 4, 0, 0, 0, 0, time.UTC)
 	c19Hex  = regexp.MustCompile(`0x[0-9a-fA-F]+`)
+	c19Brk  = regexp.MustCompile(`\[[^\]]*\]`)
 )
 
 func c19FmtVal(v any) string {
@@ -940,7 +941,10 @@ func c19FmtMeta(m tsquery.FieldMeta) string {
 	return fmt.Sprintf("%s|%s|%v|%s|{%s}", m.Urn(), m.DataType(), m.Required(), m.Unit(), strings.Join(cm, ","))
 }
 
-func c19ErrText(err error) string { return c19Hex.ReplaceAllString(err.Error(), "0x") }
+// c19ErrText: error class = message without addresses and without bracketed lists (map iteration order)
+func c19ErrText(err error) string {
+	return c19Brk.ReplaceAllString(c19Hex.ReplaceAllString(err.Error(), "0x"), "[]")
+}
 
 // c19RunDs executes a datasource and summarises metadata and rows (or the error).
 func c19RunDs(ds datasource.DataSource) (string, int) {
